@@ -1,5 +1,6 @@
 """C02 — backend requests authenticated by per-backend HMAC (api_backend.go, backend_server.go, backend_client.go,
-backend_configuration.go / backend_storage_static.go / backend_storage_etcd.go for the backend a URL belongs to)."""
+backend_configuration.go / backend_storage_static.go / backend_storage_etcd.go for the backend a URL belongs to and the
+configuration its secret comes from, http_client_pool.go for the redirects of a signed request)."""
 import collections
 from ._util import verdict_stats as _verdict_stats
 
@@ -10,11 +11,16 @@ def c02_stats(cases, model):
     out_kinds = collections.Counter()
     modes = collections.Counter()
     lens = []
+    redirects = collections.Counter()
     for c in cases:
         lens.append(len(c["ops"]))
         for o, i in zip(c["ops"], c.get("impl") or []):
             f = o.split(" ")
             ops[f[0]] += 1
+            if f[0] == "out" and any(t.startswith("rd=") for t in f):
+                n = (len(i.split(" ")) - 1) // 5
+                redirects["ops"] += 1
+                redirects["followed" if n > 1 else "not-followed"] += 1
             tag = next((t[1:] for t in f if t.startswith("#")), "-")
             if f[0] == "req":
                 tags[tag] += 1
@@ -37,7 +43,7 @@ def c02_stats(cases, model):
     return dict(verdicts=_verdict_stats(cases, model), violation_reasons=dict(reasons), ops=dict(ops),
                 configurations=dict(modes), request_kinds=dict(tags), http_status=dict(status),
                 status_by_request_kind={k: dict(v) for k, v in status_by_tag.items()},
-                outgoing_kinds=dict(out_kinds), max_case_len=max(lens or [0]),
+                outgoing_kinds=dict(out_kinds), redirect_ops=dict(redirects), max_case_len=max(lens or [0]),
                 mean_case_len=round(sum(lens) / max(1, len(lens)), 1))
 
 
@@ -45,7 +51,11 @@ def c02_nontrivial(c, ms):
     impl = c.get("impl") or []
     ok = sum(1 for o, i in zip(c["ops"], impl) if o.startswith("req ") and i.startswith("200 "))
     forb = sum(1 for o, i in zip(c["ops"], impl) if o.startswith("req ") and i.startswith("403 "))
-    return ok >= 1 and forb >= 5
+    if ok >= 1 and forb >= 5:
+        return True
+    # a redirect case: some redirects followed, some refused
+    rd = [(len(i.split(" ")) - 1) // 5 for o, i in zip(c["ops"], impl) if o.startswith("out ") and " rd=" in o]
+    return len(rd) >= 5 and any(n > 1 for n in rd) and any(n == 1 for n in rd)
 
 
 CONFIG = dict(
@@ -59,6 +69,10 @@ CONFIG = dict(
         "prefix_slash_eq_components", "C02_config_url_slash_terminated", "C02_etcd_url_as_given", "C02_stored_url_nonempty",
         "C02_entry_match_iff_under", "C02_lookup_owner",
         "C02_hdr_claims", "C02_prefix_without_slash_is_not_ownership",
+        "C02_secret_source_facts", "effectiveSecret_eq", "C02_start_secrets", "C02_reload_secrets",
+        "C02_secret_in_force_is_current", "C02_rotated_out_secret_rejected",
+        "C02_redirect_guard_facts", "C02_redirect_stays_on_origin", "C02_redirect_other_origin_not_followed",
+        "C02_deliveries_same_origin", "C02_redirect_within_origin_leaves_backend",
     ]] + ["SigModel.Hmac.toyMac_ideal", "SigModel.Bytes.toHex_injective"],
     generated=["Checksum"],
     harness=dict(pkg="signaling", test="TestVerifC02", files=["zz_verif_hex_test.go"]),
@@ -77,8 +91,20 @@ CONFIG = dict(
          "each with the claim the spec derives from the url components, content types, chunked and oversized bodies; plus "
          "function-level ValidateBackendChecksumValue on random bytes and every outgoing request kind (auth, room join/leave, ping, "
          "session add/remove) to every backend — and to the urls next to a backend's — through PerformJSONRequest against a recording "
-         "fake backend; a case is non-trivial if "
-         "at least one request was accepted (200) and at least five were refused (403); distinct = distinct op lists",
+         "fake backend (two servers on 127.0.0.1 that speak http and https on one port each, also reachable as localhost: same "
+         "name/other port, other name/same port, other scheme/same host and port). In a third of the file configurations some "
+         "sections have no own secret and use the common [backend] secret (or there is none: not a backend). Half of the cases with "
+         "backend urls go on with 1-3 reloads of the running server (static storage: Reload(file); etcd storage: key deletions and "
+         "updates) with a changed configuration — common or own secret rotated, own<->common, backend removed/added/re-ordered, "
+         "secrets or urls swapped, everything removed, the same file again — each followed by requests that were valid before, "
+         "requests of the backends as configured now incl. ones signed with the rotated-out own/common secret, requests in the name "
+         "of former backends and outgoing requests to every url of the old and new configuration; the judge goes by the file loaded "
+         "last. Redirect cases: backends on origins differing in port, host name or scheme; every outgoing request answered with "
+         "301/302/303/307/308 (one to three hops) to a url of the same backend, of every other backend and of every other origin; "
+         "the fakes record every request carrying a checksum with the url it arrived at; redirects within one origin that leave "
+         "the backend's url (open known finding) live in dedicated cases at the end. A case is non-trivial if "
+         "at least one request was accepted (200) and at least five were refused (403), or if it has at least five redirect ops of "
+         "which some were followed and some refused; distinct = distinct op lists",
     trusted_base=["which backend a url belongs to: modelled (getBackendLocked / getConfiguredHosts / the url EtcdKeyUpdated stores, statements read from the source) and "
                   "specified (url components) for plain http(s)://host/path urls in a configuration with backend urls; for other "
                   "header values and in the compat modes it is an input of the model (C13's subject). In both cases the harness "
@@ -88,6 +114,12 @@ CONFIG = dict(
                   "EtcdKeyUpdated in key order as a starting server receives the keys, the etcd client itself is not part of the run",
                   "whether an authenticated body is a valid 'message' request is an input (json.Unmarshal + CheckValid called by the harness)",
                   "net/http: header values reach the handler with leading/trailing blanks removed (the ops carry the trimmed values)",
+                  "net/http client: what a redirect status makes of a request (301/302/303: GET without body; 307/308: same method, "
+                  "body of the first request; headers of the first request sent again) is modelled (`follow`), not proved; the harness "
+                  "compares it on every redirect op",
+                  "reload: that the table of a reloaded storage equals that of a fresh start is C13's theorem; C02 models where the "
+                  "secrets come from (arguments of getConfiguredHosts in both callers, read from the source) and lets the judge go by the "
+                  "file loaded last; reload is not supported in the compat modes (by design, logged) and not exercised there",
                   "crypto/rand for the freshness of outgoing randoms (observed pairwise distinct per case, not proved)",
                   "executable HMAC-SHA256 of Basic/Hmac.lean is compared with Go's on every sign/fn/out op, not proved"],
     assumptions=["ideal MAC: the tag function is injective on (key, message) — explicit hypothesis of the corollaries, instance exhibited",
@@ -100,13 +132,19 @@ MANIFEST = dict(
          "MAC as a parameter under an explicit ideal-MAC hypothesis; tied to the code by regenerated facts (header names, hash, "
          "order of MAC writes, whole-string comparison, statement order of roomHandler, nothing published before validation, single "
          "signed outgoing POST site, random length, the statements of the url-to-backend lookup and of the url shaping at "
-         "configuration time / on an etcd update) and a differential run of the real BackendServer over real HTTP and of "
-         "PerformJSONRequest against a recording backend, executing a Lean HMAC-SHA256 compared with crypto/hmac.",
+         "configuration time / on an etcd update, the statements that give a section its secret and where startup and Reload take "
+         "the common secret from, the statements of the pool clients' CheckRedirect) and a differential run of the real BackendServer over real HTTP and of "
+         "PerformJSONRequest against recording backends that also answer with redirects, across reloads of the configuration, "
+         "executing a Lean HMAC-SHA256 compared with crypto/hmac.",
     note="Trusted: Lean kernel, extractor, harness, net/http, body validity and (outside plain urls / in compat modes) backend "
          "lookup as inputs. The backend a plain url belongs to is proved to be the one whose url components lead the url's "
          "(C02_lookup_owner) — for urls stored with the final slash (configuration file) and without it (etcd) —, which needs "
          "the '/'-terminated comparison on both sides. Unforgeability of HMAC "
          "is assumed, not proved. The random/body boundary is not authenticated (proved as C02_boundary_shift; over HTTP such a "
-         "request authenticates and fails in the JSON decoder with 400 instead of 403, publishing nothing).",
+         "request authenticates and fails in the JSON decoder with 400 instead of 403, publishing nothing). "
+         "The secrets in force after any sequence of reloads are those of the file loaded last (C02_secret_in_force_is_current). "
+         "Redirects of a signed request never leave scheme, host name and port of its target (C02_redirect_stays_on_origin); "
+         "within that origin they may reach a url of another backend or of none (open finding, proved witness "
+         "C02_redirect_within_origin_leaves_backend).",
     technique="Lean 4 proof (characterisation of the interpreted handler, ideal-MAC corollaries) + regenerated facts + differential correspondence",
 )
